@@ -26,7 +26,7 @@ try:
         r = subprocess.run(["/verif/check", prop, tier], capture_output=True, text=True, env=env)
         lines = [l for l in r.stdout.split("\n") if l.startswith(("VIOLATION", "  class=", "KNOWN", "HARNESS", prop + " "))]
         print("SENS %s %s exit=%d" % (name, prop, r.returncode))
-        for l in lines[:8]:
+        for l in lines[:8] + [l for l in lines[8:] if l.startswith("HARNESS")][:4]:
             print("   " + l[:300])
         if r.returncode == 1:
             rd = base + "/out/replays/" + prop
